@@ -100,7 +100,8 @@ package lua
 // HostKept: what re-entrant Lua code cannot change for the calling host activation (assumed): its private value stack
 // [base, top). The representation invariants of all tables/metatables (TabsOK) are system invariants: every mutator is
 // proved to preserve them (C09), so they are assumed to hold whenever control returns from Lua code.
-//@ define HostKept(ls *LState) bool = top(ls) == old(top(ls)) && base(ls) == old(base(ls)) && (forall k int :: old(base(ls)) <= k && k < old(top(ls)) ==> ls.reg.array[k] == old(ls.reg.array[k])) && (old(Inv_gfn(ls)) ==> Inv_gfn(ls)) && (ls.G != nil ==> TabsOK(ls)) && (old(regsValid(ls)) ==> regsValid(ls)) && ls.G.Registry == old(ls.G.Registry) && (forall k int :: base(ls) <= k && k < top(ls) ==> valOK(ls.reg.array[k])) && (forall t *LTable :: t != nil ==> arrid(t.array) != arrid(ls.reg.array))
+//@ define HostFrameKept(ls *LState) bool = top(ls) == old(top(ls)) && base(ls) == old(base(ls)) && (forall k int :: old(base(ls)) <= k && k < old(top(ls)) ==> ls.reg.array[k] == old(ls.reg.array[k])) && (old(Inv_gfn(ls)) ==> Inv_gfn(ls)) && (old(Inv_api(ls)) ==> Inv_api(ls)) && ls.currentFrame == old(ls.currentFrame) && (old(ls.currentFrame != nil && ls.currentFrame.Fn != nil) ==> ls.currentFrame.Fn != nil) && ls.G == old(ls.G) && ls.G.Registry == old(ls.G.Registry) && ls.G.Global == old(ls.G.Global) && MaxArrayIndex == old(MaxArrayIndex)
+//@ define HostKept(ls *LState) bool = HostFrameKept(ls) && (ls.G != nil ==> TabsOK(ls)) && (old(regsValid(ls)) ==> regsValid(ls)) && (forall k int :: base(ls) <= k && k < top(ls) ==> valOK(ls.reg.array[k])) && (forall t *LTable :: t != nil ==> arrid(t.array) != arrid(ls.reg.array) && arrid(t.keys) != arrid(ls.reg.array))
 
 //@ trusted (*LState).getFieldString [C01 C04 C07 C10 C20]
 //@ assume getFieldString/setField/setFieldString: same structure as getField (verified above); assumed here until verified
